@@ -148,6 +148,10 @@ pub fn check_program_sig(rep: &Report, p: &Program, text: &str, core_id: Option<
     }
     let flat = p.flatten();
     let (trace, end, regs) = with_fresh_vm(|vm| {
+        // the driver's own order: data lines through the data loader, DS back to 0, then the run loop
+        if crate::asm::load_data(vm, &a.data).is_err() {
+            return (Vec::new(), RunEnd::BadIndex(usize::MAX), crate::machine::read_regs(vm));
+        }
         let t = run_replica(&a, start, vm, replica_steps);
         (t.trace, t.end, crate::machine::read_regs(vm))
     });
@@ -358,11 +362,16 @@ pub fn run(rep: &Report) {
     par_for(n, 8, |i| {
         let core = i < 300;
         let mut rng = if core { Rng::new(0xC08).fork(i as u64) } else { Rng::new(seed).fork(0xC08_0000 + i as u64) };
-        let p = structured_program(&mut rng, &SOpts { prints: i % 3 == 0, int3: i % 5 == 0, max_blocks: 3 + i % 8, ..Default::default() });
+        let mut p = structured_program(&mut rng, &SOpts { prints: i % 3 == 0, int3: i % 5 == 0, max_blocks: 3 + i % 8, ..Default::default() });
+        // every fourth program: one code label carries the name of a procedure (different tables, same spelling)
+        let collided = i % 4 == 1 && crate::genprog::collide_names(&mut p, &mut rng);
+        if collided {
+            rep.count("programs where a label and a procedure share one name", 1);
+        }
         let mut sp = Spell::random(rng.fork(1));
         let lay = Layout { trailing_newline: i % 2 == 0, filler_pct: 20, pack_pct: if i % 4 == 0 { 20 } else { 0 }, comments: false };
         let text = p.render(&mut sp, &lay).text;
-        let cli = i % (if t { 6 } else { 5 }) == 0;
+        let cli = collided || i % (if t { 6 } else { 5 }) == 0;
         check_program(rep, &p, &text, if core { Some(format!("rnd{}", i)) } else { None }, cli, "random");
         if i == 3 {
             rep.sample(format!("structured program: {:?}", text));
